@@ -2,4 +2,7 @@ import OASModel.Scalar
 import OASModel.Vec3
 import OASModel.Transfer
 import OASModel.StructLoads
+import OASModel.AeroFunc
+import OASModel.Functionals
+import OASModel.Stress
 import OASModel.Dual
